@@ -16,6 +16,7 @@ import (
 	"bytes"
 	"encoding/hex"
 	"fmt"
+	"runtime/debug"
 	"testing"
 	"time"
 
@@ -180,6 +181,11 @@ func (m Msg) typeID() uint8 {
 	return m.Type
 }
 
+func init() {
+	// make stack exhaustion cheap and deterministic: a few hundred thousand nested containers overflow 32 MiB
+	debug.SetMaxStack(32 << 20)
+}
+
 // ---- generators -------------------------------------------------------------
 
 var strGen = rapid.OneOf(
@@ -206,7 +212,7 @@ func avGen(depth int) *rapid.Generator[AV] {
 			return AV{K: "undef"}
 		case 7:
 			// malformed / unusual markers
-			return AV{K: "bad", Raw: rapid.SampledFrom([]string{"", "02", "0200", "02ffff", "0c", "0c7fffffff61", "03", "0300", "030001", "08", "08ffffffff", "0affffffff", "0a00000001", "07000a", "0b0000000000000000000000", "0d", "11", "ff", "000000", "0500", "09"}).Draw(t, "badRaw")}
+			return AV{K: "bad", Raw: rapid.SampledFrom([]string{"", "02", "0200", "02ffff", "0c", "0c7fffffff61", "03", "0300", "030001", "08", "08ffffffff", "0affffffff", "0a00000001", "020003ab", "02000461", "0c0000000361", "0200026100", "07000a", "0b0000000000000000000000", "0d", "11", "ff", "000000", "0500", "09"}).Draw(t, "badRaw")}
 		case 8:
 			return AV{K: "lstr", S: "x", Rep: rapid.SampledFrom([]int{1, 65535, 65536, 70000}).Draw(t, "rep")}
 		case 9:
@@ -225,7 +231,7 @@ func avGen(depth int) *rapid.Generator[AV] {
 			}
 			return a
 		default:
-			nest := rapid.SampledFrom([]int{2, 65, 70, 1000, 20000}).Draw(t, "nest")
+			nest := rapid.SampledFrom([]int{2, 65, 70, 1000, 20000, 65, 2, 250000}).Draw(t, "nest")
 			if pbt.Thorough() && rapid.IntRange(0, 20).Draw(t, "huge") == 0 {
 				nest = 1000000
 			}
@@ -247,8 +253,12 @@ func hostileMsg(t *rapid.T) Msg {
 	if rapid.IntRange(0, 7).Draw(t, "cs") == 0 {
 		m.ChunkSize = rapid.SampledFrom([]int{1, 2, 127, 129, 4096, 70000}).Draw(t, "chunkSize")
 	}
-	if rapid.IntRange(0, 9).Draw(t, "lie") == 0 {
+	switch rapid.IntRange(0, 11).Draw(t, "lie") {
+	case 0:
 		m.DeclLen = rapid.SampledFrom([]int{1, 2, 3, 1000, 0xFFFFFF, 70000}).Draw(t, "declLen")
+	case 1, 2:
+		// the message is cut a few bytes short of its last value (negative = relative to the real length)
+		m.DeclLen = -rapid.IntRange(1, 5).Draw(t, "cutBy")
 	}
 	switch rapid.IntRange(0, 11).Draw(t, "msgClass") {
 	case 0, 1, 2: // command with generated args
@@ -378,8 +388,20 @@ func render(c Case) []byte {
 			w.ChunkSize = m.ChunkSize
 		}
 		w.WideCsid = m.WideCsid
+		if w.ChunkSize < 16 && len(p) > 5000 {
+			p = p[:5000] // tiny chunks: keep the chunk count (and lal's per-chunk cost) sane
+		}
 		rm := rtmpref.Msg{Csid: m.Csid, TypeID: m.typeID(), StreamID: m.Msid, Ts: m.Ts, Payload: p}
 		b := w.WriteMsg(rm, m.Fmt)
+		if m.DeclLen < 0 {
+			if len(p)+m.DeclLen > 0 {
+				m.DeclLen = len(p) + m.DeclLen
+				// send only the declared part so that the chunk layer completes the (cut) message
+				rm.Payload = p[:m.DeclLen]
+				b = w.WriteMsg(rm, m.Fmt)
+			}
+			m.DeclLen = 0
+		}
 		if m.DeclLen > 0 && m.Fmt <= 1 {
 			off := 1
 			if m.Csid >= 64 {
@@ -489,6 +511,10 @@ func classify(c Case) (bool, []string) {
 			}
 		} else {
 			labels = append(labels, fmt.Sprintf("type:%d", bucketType(m.Type)))
+		}
+		if m.DeclLen < 0 {
+			labels = append(labels, "cut-short")
+			mutated = true
 		}
 		if m.DeclLen > 0 {
 			labels = append(labels, "lying-length")
